@@ -1,5 +1,6 @@
 import LcModel.Filter.Lemmas
 import LcModel.Filter.LemmasHashes
+import LcModel.Quorum.LemmasLatest
 /-!
 # C06 — block filters are acted on only if authentic
 
@@ -301,6 +302,237 @@ theorem old_rule_end_unchecked :
     onCachedHashes s0 true 4 2002002 fake = .ok (s0, .banned HASHES_UNEXPECTED) := by
   intro s0 fake
   exact ⟨by rfl, by decide, by rfl⟩
+
+/-! ## the agreed latest hashes (`Peers::get_latest_block_filter_hashes`)
+
+`Authentic.latest` above is an ASSUMPTION of `accepted_filters_authentic`: `Filter.execute` takes
+the peer-agreed hashes of the blocks after the last finalized check point as the input `latest`.
+The function that computes them is modelled by `Quorum.latestAgreed?` (tied to the code by
+`./check C06`: random tables of proven / unproven peers with hash lists that deviate from a
+common list, are truncated, re-join, tie, are run through the real
+`get_latest_block_filter_hashes` and the model, the implementation's result being sent as the
+tie-break `choices`).  `data` = the proven peers on the finalized check point with their hash
+lists (peer id × hashes); `required` = `required_peers_count()`, which is at least 1
+(`latest_required_pos`: the code panics for `max_outbound_peers = 0` before the index
+`required - 1` is taken); `latestAgreed? … = some result` says that `choices` were valid, i.e.
+each a maximal-count hash of its index (`latest_choices_exist`: such choices always exist). -/
+
+open Quorum (latestAgreed? latestAgreed latestAgreedSomeHash latestFor requiredPeers)
+
+/-- **(a) quorum**: every returned prefix is held ENTIRELY by one group of at least `required`
+peers of the table (a sublist of `data`: distinct table entries, hence distinct peers — see
+`latest_quorum_distinct`); this is what the `retain` step buys over per-index counting -/
+theorem latest_quorum (required : Nat) (data : List (Nat × List Nat)) (choices result : List Nat)
+    (h : latestAgreed? required data choices = some result) (i : Nat) (hi : i < result.length) :
+    ∃ group : List (Nat × List Nat), group.Sublist data ∧ required ≤ group.length ∧
+      ∀ p ∈ group, result.take (i + 1) <+: p.2 :=
+  Quorum.latestAgreed?_group h i hi
+
+/-- the same in the `⊆` form, with pairwise distinct peer ids when the table's ids are -/
+theorem latest_quorum_distinct (required : Nat) (data : List (Nat × List Nat))
+    (choices result : List Nat) (hnd : (data.map (·.1)).Nodup)
+    (h : latestAgreed? required data choices = some result) (i : Nat) (hi : i < result.length) :
+    ∃ group : List (Nat × List Nat), group ⊆ data ∧ (group.map (·.1)).Nodup ∧
+      group.length ≥ required ∧ ∀ p ∈ group, result.take (i + 1) <+: p.2 := by
+  obtain ⟨group, hsub, hlen, hall⟩ := latest_quorum required data choices result h i hi
+  exact ⟨group, hsub.subset, List.Nodup.sublist (hsub.map _) hnd, hlen, hall⟩
+
+/-- **(b)** fewer than `required` proven peers with data: nothing is agreed, whatever the choices -/
+theorem latest_empty_without_quorum (required : Nat) (data : List (Nat × List Nat))
+    (choices : List Nat) (h : data.length < required) :
+    latestAgreed? required data choices = some [] ∧ latestAgreed required data choices = [] := by
+  have := Quorum.latestAgreed?_few choices h
+  exact ⟨this, by unfold latestAgreed; rw [this]; rfl⟩
+
+/-- the `required = 0` corner does not exist: `required_peers_count()` is `(max_outbound + 1) / 2`
+and panics (`panic!("max outbound peers shouldn't be zero!")`, model: `expect 50`) when that is 0,
+before `hashes_sizes[required - 1]` is evaluated -/
+theorem latest_required_pos (maxOutbound : Nat) (data : List (Nat × List Nat)) (choices : List Nat) :
+    (maxOutbound = 0 → latestFor maxOutbound data choices = .error (.expect 50)) ∧
+    (∀ r, latestFor maxOutbound data choices = .ok r →
+      0 < (maxOutbound + 1) / 2 ∧ r = latestAgreed? ((maxOutbound + 1) / 2) data choices) := by
+  constructor
+  · rintro rfl; rfl
+  · intro r h
+    unfold latestFor at h
+    simp only [M.bind_eq_ok] at h
+    obtain ⟨required, hr, h⟩ := h
+    obtain ⟨hpos, rfl⟩ := Quorum.requiredPeers_pos hr
+    simp only [M.pure_eq_ok] at h
+    exact ⟨hpos, h.symm⟩
+
+/-- valid choices exist for every table: the model rejects no table, only choices -/
+theorem latest_choices_exist (required : Nat) (hreq : 0 < required) (data : List (Nat × List Nat)) :
+    ∃ choices result, latestAgreed? required data choices = some result :=
+  Quorum.latestAgreed?_choices_exist hreq data
+
+/-- the general form of (c): if every group of `required` peers of the table contains a peer whose
+list is `good`, every returned prefix is a prefix of a `good` list -/
+theorem latest_of_every_group (good : List Nat → Prop) (required : Nat)
+    (data : List (Nat × List Nat)) (choices result : List Nat)
+    (hgroup : ∀ group : List (Nat × List Nat), group.Sublist data → required ≤ group.length →
+      ∃ p ∈ group, good p.2)
+    (h : latestAgreed? required data choices = some result) (i : Nat) (hi : i < result.length) :
+    ∃ l, good l ∧ result.take (i + 1) <+: l := by
+  obtain ⟨group, hsub, hlen, hall⟩ := latest_quorum required data choices result h i hi
+  obtain ⟨p, hp, hg⟩ := hgroup group hsub hlen
+  exact ⟨p.2, hg, hall p hp⟩
+
+/-- **(c) honest majority**: if fewer than `required` peers of the table hold a list that is not a
+prefix of the chain's hashes `truth`, every returned hash is the chain's.  (Nothing is assumed
+about how many peers are honest: with too few of them the result is short or empty, never wrong.) -/
+theorem latest_honest_majority (required : Nat) (data : List (Nat × List Nat))
+    (choices result truth : List Nat)
+    (hliars : (data.filter (fun p => decide (¬ p.2 <+: truth))).length < required)
+    (h : latestAgreed? required data choices = some result) :
+    ∀ (i x : Nat), result[i]? = some x → truth[i]? = some x := by
+  intro i x hx
+  have hi : i < result.length := (List.getElem?_eq_some_iff.1 hx).1
+  obtain ⟨group, hsub, hlen, hall⟩ := latest_quorum required data choices result h i hi
+  obtain ⟨p, hp, hg⟩ := Quorum.exists_good_of_few_bad _ hsub hlen hliars
+  have hpre : p.2 <+: truth := by simpa using hg
+  have hpt : result.take (i + 1) <+: truth := (hall p hp).trans hpre
+  rw [List.prefix_iff_getElem?] at hpt
+  have hlt : i < (result.take (i + 1)).length := by rw [List.length_take]; omega
+  rw [hpt i hlt, List.getElem_take]
+  rw [List.getElem?_eq_getElem hi] at hx
+  exact hx
+
+/-- the hypothesis `Authentic.latest` of `accepted_filters_authentic`, discharged for the hashes
+`get_latest_block_filter_hashes` returns: if among every `required` proven peers on the finalized
+check point one holds only hashes of the chain (at the heights after that check point), the
+returned hashes are the chain's -/
+theorem latest_authentic (trueHash : Nat → Nat) (s : St) (required : Nat)
+    (data : List (Nat × List Nat)) (choices latest : List Nat)
+    (hgroup : ∀ group : List (Nat × List Nat), group.Sublist data → required ≤ group.length →
+      ∃ p ∈ group, ∀ i h, p.2[i]? = some h → h = trueHash (s.interval * s.finIdx + 1 + i))
+    (h : latestAgreed? required data choices = some latest) :
+    ∀ i h, latest[i]? = some h → h = trueHash (s.interval * s.finIdx + 1 + i) := by
+  intro i x hx
+  have hi : i < latest.length := (List.getElem?_eq_some_iff.1 hx).1
+  obtain ⟨l, hl, hpre⟩ := latest_of_every_group
+    (fun l => ∀ i h, l[i]? = some h → h = trueHash (s.interval * s.finIdx + 1 + i))
+    required data choices latest hgroup h i hi
+  apply hl i x
+  rw [List.prefix_iff_getElem?] at hpre
+  have hlt : i < (latest.take (i + 1)).length := by rw [List.length_take]; omega
+  rw [hpre i hlt, List.getElem_take]
+  rw [List.getElem?_eq_getElem hi] at hx
+  exact hx
+
+/-- the same with a count: fewer than `required` peers of the table hold a hash that is not the
+chain's -/
+theorem latest_authentic_of_few_liars (trueHash : Nat → Nat) (s : St) (required : Nat)
+    (data : List (Nat × List Nat)) (choices latest : List Nat)
+    (hliars : (data.filter (fun p => decide (p.2 ≠
+      (List.range p.2.length).map (fun i => trueHash (s.interval * s.finIdx + 1 + i))))).length
+        < required)
+    (h : latestAgreed? required data choices = some latest) :
+    ∀ i h, latest[i]? = some h → h = trueHash (s.interval * s.finIdx + 1 + i) := by
+  apply latest_authentic trueHash s required data choices latest _ h
+  intro group hsub hlen
+  obtain ⟨p, hp, hg⟩ := Quorum.exists_good_of_few_bad _ hsub hlen hliars
+  refine ⟨p, hp, ?_⟩
+  have hpe : p.2 = (List.range p.2.length).map
+      (fun i => trueHash (s.interval * s.finIdx + 1 + i)) := by simpa using hg
+  intro i x hx
+  rw [hpe] at hx
+  simp only [List.getElem?_map, Option.map_eq_some_iff] at hx
+  obtain ⟨j, hj, rfl⟩ := hx
+  have := (List.getElem?_eq_some_iff.1 hj)
+  obtain ⟨hlt, hj'⟩ := this
+  rw [List.getElem_range] at hj'
+  rw [hj']
+
+/-- **C06 (authenticity) with the agreement computed**: `accepted_filters_authentic` where the
+latest hashes are what `get_latest_block_filter_hashes` returns for a table in which every group
+of `required` peers contains one that holds only the chain's hashes; what remains assumed about
+hashes the state holds is the stored check points and the complete cache -/
+theorem accepted_filters_authentic_agreed (H : Nat → Nat → Nat) (trueHash trueFilter : Nat → Nat)
+    (hinj : ∀ a b c d, H a b = H c d → a = c ∧ b = d)
+    (hch : ChainHashes H trueHash trueFilter)
+    (s s' : St) (proved : Bool) (m : Msg) (k : Nat) (l : List Nat)
+    (required : Nat) (data : List (Nat × List Nat)) (choices latest : List Nat)
+    (hi : 0 < s.interval)
+    (hcps : ∀ i h, s.cps[i]? = some h → h = trueHash (s.interval * i))
+    (hcached : s.interval ≤ s.cached.length →
+      ∀ i h, s.cached[i]? = some h → h = trueHash (s.interval * s.cachedIdx + 1 + i))
+    (hgroup : ∀ group : List (Nat × List Nat), group.Sublist data → required ≤ group.length →
+      ∃ p ∈ group, ∀ i h, p.2[i]? = some h → h = trueHash (s.interval * s.finIdx + 1 + i))
+    (hl : latestAgreed? required data choices = some latest)
+    (h : execute H s proved latest m = .ok (s', .accepted k l)) :
+    ∀ i, i < k → m.filters[i]? = some (trueFilter (m.start + i)) :=
+  accepted_filters_authentic H trueHash trueFilter hinj hch s s' proved latest m k l hi
+    ⟨hcps, hcached, latest_authentic trueHash s required data choices latest hgroup hl⟩ h
+
+/-- **the length bound** (liveness, not safety): the result is never longer than the
+`required`-th SHORTEST list of the table, however many peers agree on more — `required` proven
+peers that hold few hashes (or none: a peer that has just been proven) cap what everybody else
+agrees on.  Closed: quorum 2, three peers agree on four hashes, two hold none: nothing is agreed -/
+theorem latest_length_bound (required : Nat) (data : List (Nat × List Nat))
+    (choices result : List Nat) (h : latestAgreed? required data choices = some result) :
+    result.length ≤ (Quorum.sortNat (data.map (·.2.length)))[required - 1]?.getD 0 :=
+  Quorum.latestAgreed?_length_le h
+
+theorem latest_capped_by_short_lists :
+    ∀ choices result, latestAgreed? 2
+      [(1, [1, 2, 3, 4]), (2, [1, 2, 3, 4]), (3, [1, 2, 3, 4]), (4, []), (5, [])] choices
+        = some result → result = [] := by
+  intro choices result h
+  have := latest_length_bound _ _ _ _ h
+  have h0 : (Quorum.sortNat (([(1, [1, 2, 3, 4]), (2, [1, 2, 3, 4]), (3, [1, 2, 3, 4]), (4, []),
+      (5, [])] : List (Nat × List Nat)).map (·.2.length)))[2 - 1]?.getD 0 = 0 := by decide
+  rw [h0] at this
+  exact List.length_eq_zero_iff.1 (by omega)
+
+/-- **(d) the seeded rule is not the code's** (/verif/seeded/C06b: an index has a quorum when at
+least `required` peers have SOME hash there): with `required = 2`, three peers of which one holds
+`[7, 8]`, one `[9]` and one nothing, the seeded rule returns `7` — held by one peer —, and with
+lists that agree on the first hash and then split `5 7 / 5 9 / 5` it returns `[5, 7]`; the code's
+rule returns `[]` and `[5]` -/
+theorem seeded_rule_returns_minority_hash :
+    latestAgreedSomeHash 2 [(1, [7, 8]), (2, [9]), (3, [])] [7] = some [7] ∧
+    latestAgreed? 2 [(1, [7, 8]), (2, [9]), (3, [])] [] = some [] ∧
+    latestAgreed 2 [(1, [7, 8]), (2, [9]), (3, [])] [7] = [] ∧
+    latestAgreedSomeHash 2 [(1, [5, 7]), (2, [5, 9]), (3, [5])] [5, 7] = some [5, 7] ∧
+    latestAgreed? 2 [(1, [5, 7]), (2, [5, 9]), (3, [5])] [5] = some [5] ∧
+    ¬ (∃ group : List (Nat × List Nat), group.Sublist [(1, [7, 8]), (2, [9]), (3, [])] ∧
+        2 ≤ group.length ∧ ∀ p ∈ group, [7] <+: p.2) := by
+  refine ⟨by decide, by decide, by decide, by decide, by decide, ?_⟩
+  rintro ⟨group, hsub, hlen, hall⟩
+  have hk : group.filter (fun p => decide ([7] <+: p.2)) = group :=
+    List.filter_eq_self.2 (fun p hp => by simpa using hall p hp)
+  have := (hsub.filter (fun p => decide ([7] <+: p.2))).length_le
+  rw [hk] at this
+  have h1 : ([(1, [7, 8]), (2, [9]), (3, [])].filter
+      (fun p : Nat × List Nat => decide ([7] <+: p.2))).length = 1 := by decide
+  omega
+
+/-- **non-vacuity of (a) and (c)**: three peers, quorum 2, the chain's hashes are `1 2 3 4`; one
+peer holds them all, one the first three, one deviates at the second position and re-joins.  The
+result is `1 2 3`: the deviating peer is dropped by the `retain` step at the second position, so
+its `4` does not count at the fourth (without `retain` it would); the two honest peers are the
+group of `latest_quorum`, the single liar is below the quorum, and `latest_honest_majority`
+applies.  A tie (two hashes held by one peer each, quorum 1) is resolved by the choice, and a
+choice that is not a maximal-count hash is refused -/
+theorem latest_example :
+    let data : List (Nat × List Nat) := [(1, [1, 2, 3, 4]), (2, [1, 2, 3]), (3, [1, 9, 3, 4])]
+    let truth : List Nat := [1, 2, 3, 4]
+    latestAgreed? 2 data [1, 2, 3] = some [1, 2, 3] ∧
+    (data.filter (fun p => decide (¬ p.2 <+: truth))).length = 1 ∧
+    (∀ (i x : Nat), [1, 2, 3][i]? = some x → truth[i]? = some x) ∧
+    (∃ group : List (Nat × List Nat), group.Sublist data ∧ 2 ≤ group.length ∧
+      ∀ p ∈ group, [1, 2, 3].take (2 + 1) <+: p.2) ∧
+    latestAgreed? 2 data [1, 9, 3] = none ∧
+    latestAgreed? 1 [(1, [2]), (2, [3])] [2] = some [2] ∧
+    latestAgreed? 1 [(1, [2]), (2, [3])] [3] = some [3] ∧
+    latestAgreed? 1 [(1, [2]), (2, [3])] [4] = none := by
+  intro data truth
+  have h1 : latestAgreed? 2 data [1, 2, 3] = some [1, 2, 3] := by decide
+  have h2 : (data.filter (fun p => decide (¬ p.2 <+: truth))).length = 1 := by decide
+  refine ⟨h1, h2, ?_, ?_, by decide, by decide, by decide, by decide⟩
+  · exact latest_honest_majority 2 data [1, 2, 3] [1, 2, 3] truth (by rw [h2]; decide) h1
+  · exact latest_quorum 2 data [1, 2, 3] [1, 2, 3] h1 2 (by decide)
 
 /-! ## non-vacuity -/
 
